@@ -210,7 +210,7 @@ def run_e2(res, tier):
             bad("echo differs (got, want): %s" % diff, "echo:" + ",".join(sorted(diff)))
     res.parts["e2_cases"] = len(cases)
     res.parts["e2_programs"] = len(info)
-    res.sample({"e2_case": cases[11], "observation": obs[11]})
+    res.sample(lambda: {"e2_case": cases[11], "observation": obs[11]})
 
 
 def run(tier):
